@@ -212,6 +212,10 @@ def events_of(tr):
     return ev
 
 
+DANGLING_IS_BROKENREF = {'dangling:instance_geometry@url', 'dangling:instance_controller@url', 'dangling:instance_light@url',
+                         'dangling:instance_camera@url', 'dangling:instance_node@url', 'dangling:instance_material@target',
+                         'dangling:instance_effect@url', 'dangling:init_from/text', 'dangling:source/text',
+                         'dangling:instance_visual_scene@url', 'dangling:skin@source', 'dangling:morph@source'}
 LEAVES = ['DaeIncompleteError', 'DaeBrokenRefError', 'DaeMalformedError', 'DaeUnsupportedError']
 
 
@@ -297,6 +301,10 @@ def run_doc_case(case, bases, base_cache):
             if co['esc_name'] != sesc or co['errs'] != strict['errs']:
                 fail('clear-restores', 'ignore=[None] (clear the mask) does not behave strictly: %s/%s instead of %s/%s'
                      % (co['esc_name'], co['err_names'], sesc, strict['err_names']))
+        # ---- clause: a dangling reference of the kinds the loader must resolve is a broken-reference error
+        if len(case['faults']) == 1 and case['faults'][0]['kind'] == 'dangling' and label in DANGLING_IS_BROKENREF:
+            if sesc != 'DaeBrokenRefError':
+                fail('dangling-kind', 'a dangling reference (%s) gives %s instead of DaeBrokenRefError' % (label, sesc), str(sesc))
         # ---- clause: containment + nothing invented
         base = base_cache[case['base']]
         root = F.parse(text)
